@@ -25,6 +25,7 @@ def synthResp (id len salt : Nat) : Bytes :=
 def parseOutcome (id : Nat) (toks : List String) : Option Outcome :=
   match toks with
   | ["E"] => some .error
+  | ["T"] => some .error   -- upstream hangs until the request timeout: an error for the handler
   | ["H", h] => (ofHex h).map .bytes
   | ["S", len, salt] => do
       let l ← len.toNat?
